@@ -301,7 +301,8 @@ class ComputeSolutions(Contract):
     def inner(self, S, env, g):
         old = S.ex.old
         s, so = env["self"].fields, old["self"].fields
-        gi = env["component_grid"].origin[1]
+        # the outer loop's element (whatever the local is called): the view of the scheme's object list that is in scope
+        gi = next(v.origin[1] for v in env.values() if isinstance(v, Obj) and hasattr(v, "origin") and v.origin[0] is env["self"].fields["scheme"])
         ki = g["k"]
         k = z3.Int("ik")
         na = old["areas"].length
